@@ -1,6 +1,6 @@
 """C04: check configuration (PROPS_ENTRY, consumed by ./check and gen_manifest.py) and the list of lemmas that make up
 the property file (SPEC_ENTRY, consumed by tools/mkprops.py)."""
-PROPS_ENTRY = {'models': ['Model/Queue.v', 'Model/Sound.v', 'Model/Mmio.v', 'Model/MmioSpec.v'],
+PROPS_ENTRY = {'models': ['Model/Queue.v', 'Model/QueueNoAlloc.v', 'Model/Sound.v', 'Model/Mmio.v', 'Model/MmioSpec.v'],
  'design_ref': 'DESIGN.md 3 C04',
  'assumptions': ['the directed register-level cases of the MMIO transport (scenario c10-directed-*, monitor 1011) also run under this check: the addresses written to the queue registers are those DMA allocation returned, both layouts, regions in different 4 GiB windows; the platform ledger requires unshare / dealloc to carry the same access_platform flag as share / alloc',
                  'LedgerHal is the instrumented platform: every share bounced to a distinct device address, copy-in at share, copy-back at unshare; the driver-side copy of a device-writable buffer is poisoned while it is shared',
@@ -8,7 +8,7 @@ PROPS_ENTRY = {'models': ['Model/Queue.v', 'Model/Sound.v', 'Model/Mmio.v', 'Mod
                  '(scenario c20snd-nb-*, model Model/Sound.v, monitor 2060 and the ledger lines); its theorems are C20_snd_nb_*']}
 
 SPEC_ENTRY = {'title': 'Each buffer is shared with the device once and unshared once, arguments matching',
- 'imports': ['Model.Queue', 'Proofs.QueueInv', 'Proofs.QueueReach', 'Proofs.QueueProps'],
+ 'imports': ['Model.Queue', 'Proofs.QueueInv', 'Proofs.QueueReach', 'Proofs.QueueProps', 'Model.QueueNoAlloc', 'Proofs.QueueNoAllocProofs'],
  'theorems': [('C04_ledger',
                'Proofs/QueueProps.v',
                'ledger_balanced',
@@ -23,4 +23,8 @@ SPEC_ENTRY = {'title': 'Each buffer is shared with the device once and unshared 
               ('C04_addresses',
                'Proofs/QueueProps.v',
                'add_publishes',
-               'every address the device reaches from a published slot is the share answer for that buffer')]}
+               'every address the device reaches from a published slot is the share answer for that buffer'),
+              # ---- the alloc-less build configuration of the crate (--no-default-features) ----
+              ('C04_noalloc_ledger', 'Proofs/QueueNoAllocProofs.v', 'na_ledger_balanced', 'alloc-less build: shares = unshares + live shares as multisets, the live shares are caller buffers only, no event of any history concerns a table'),
+              ('C04_noalloc_no_share_on_refusal', 'Proofs/QueueNoAllocProofs.v', 'na_add_refusals', None),
+              ('C04_noalloc_pop_events', 'Proofs/QueueNoAllocProofs.v', 'na_pop_refines', 'the unshares of a chain happen inside the alloc-less pop_used that consumes it: one per buffer, none for a table')]}
